@@ -57,15 +57,15 @@ let run_case2 op t =
       let a = next_z t in let b = next_z t in
       if op = "month_cmp" then (okl (bs (cmp6_m a b)), okl (bs (cmp6_spec a b)))
       else (okl (bs (cmp6_m a b) @ zs [ day_diff_m a b ]), okl (bs (cmp6_spec a b) @ zs [ zsub a b ]))
-  | "mctor" | "mctor_max" | "dctor" | "dctor_max" ->
+  | "mctor" | "dctor" ->
       let v = next_z t in
-      let r = if op = "mctor" || op = "mctor_max" then month_ctor_m v else day_ctor_m v in
+      let r = if op = "mctor" then month_ctor_m v else day_ctor_m v in
       (legc [ rz r ], if in_u8 v then okl (zs [ v ]) else "na")
-  | "day_plus" | "day_plus_max" ->
+  | "day_plus" ->
       let d = next_z t in let dd = next_z t in
       let r = rz (day_plus_m d dd) in
       (leg [ r; r ], if in_u8 (zadd d dd) then okl (zs [ zadd d dd; zadd d dd ]) else "na")
-  | "day_minus" | "day_minus_max" ->
+  | "day_minus" ->
       let d = next_z t in let dd = next_z t in
       (leg [ rz (day_minus_days_m d dd) ], if in_u8 (zsub d dd) then okl (zs [ zsub d dd ]) else "na")
   | "day_assign" ->
